@@ -17,3 +17,8 @@ def run(tier):
         rp, "every program of the lenses built under lazy: declared inputs/output vs the "
             "typing rules of Sem.tla; then reinterpreted eagerly: output domain, inputs subset, data shape, bint range")
     return out.finish()
+
+
+def replay_file(path):
+    from harness import replayfile
+    return replayfile.replay_term(path, "harness.modes:c06", "C06")
